@@ -1,7 +1,9 @@
 // Kani harnesses hosted in iroh_relay::server (child module: sees private items).  C13.
 use super::*;
 
-fn no_bt() -> bool { false }
+fn no_bt() -> bool {
+    false
+}
 
 /// Complete (loop-free, full domain): for EVERY `char`, is_challenge_char is exactly
 /// "ASCII letter, ASCII digit, '.', '-' or '_'".
@@ -9,7 +11,12 @@ fn no_bt() -> bool { false }
 #[kani::stub(n0_error::backtrace_enabled, no_bt)]
 fn challenge_char_spec() {
     let c: char = kani::any();
-    let expected = ('a'..='z').contains(&c) || ('A'..='Z').contains(&c) || ('0'..='9').contains(&c) || c == '.' || c == '-' || c == '_';
+    let expected = ('a'..='z').contains(&c)
+        || ('A'..='Z').contains(&c)
+        || ('0'..='9').contains(&c)
+        || c == '.'
+        || c == '-'
+        || c == '_';
     kani::cover!(expected, "some char is accepted");
     kani::cover!(!expected, "some char is rejected");
     assert!(is_challenge_char(c) == expected);
